@@ -1,6 +1,7 @@
 package storekit
 
 import (
+	"time"
 	"context"
 	"errors"
 	"iter"
@@ -23,6 +24,9 @@ type Action struct {
 	Block       bool  // block until the operation's context ends, then return ctx.Err()
 	CrashBefore bool  // panic(Crash) before the operation
 	CrashAfter  bool  // perform the operation, then panic(Crash)
+	// Delay sleeps this long, ignoring the context, before the operation is
+	// performed: a slow store that does not watch its context.
+	Delay time.Duration
 }
 
 // Hook decides the Action for the n-th (1-based) operation of kind op
@@ -132,6 +136,9 @@ func (b *Base) Seq() int {
 func (b *Base) pre(a Action, op string, ctx context.Context) error {
 	if a.CrashBefore {
 		b.crash("before " + op)
+	}
+	if a.Delay > 0 {
+		time.Sleep(a.Delay)
 	}
 	if b.HonourCtx && ctx.Err() != nil && a.Err == nil {
 		return ctx.Err()
